@@ -22,7 +22,7 @@ theorem C06.finalise_creates_next_height (n : Node) (ts : Nat) (h : String) (cou
     n'.blockNumberOf (normHash h n.nextHeight) = some (hexN 16 n.nextHeight) ∧
     ((n'.b .block).get n.nextHeight).isSome ∧ ((n'.b .rawBlock).get n.nextHeight).isSome ∧
     n'.lbi = {} := by
-  obtain ⟨_, n', _, h1, h2, h3, h4, ht, hb, hl⟩ := finaliseOne_ok hok
+  obtain ⟨_, n', _, h1, h2, h3, h4, ht, hb, hl, _⟩ := finaliseOne_ok hok
   simp only [blockHashAt, blockNumberOf, ht, hb]
   exact ⟨h1, h4, h2, h3, hl⟩
 
@@ -160,6 +160,9 @@ theorem C06.block_tables_rows_upto_height (n : Node) (hr : Reach n) (hne : n.nex
 
 namespace C06.Example
 open Node.Example
+
+-- the parked row of `Node.Example` is a 162-character string that `decide` has to walk through
+set_option maxRecDepth 8192
 
 /-- the first transaction of block 0 on the empty node (explicit block hash `abcd`); its recorded writes contain a
 `block_number_to_hash` row for the block under construction -/
